@@ -209,26 +209,8 @@ def run_case(case, ctx):
 		k, p = case['k'], case['prefix']
 		pb = p.encode()
 		kspec = KmerSpec(k, p)
-		tl = len(pb) + k
-		L = case['length']
-		rng = np.random.default_rng(case['seed'])
-		seq = bytearray(np.where(rng.integers(0, 2, size=L, dtype=np.uint8) == 0, 67, 71).astype(np.uint8).tobytes())   # C / G
-		windows = []
-		last_end = 0
-		for seam, d, rev, kseed in sorted(case['hits']):
-			pos = seam + d
-			if pos < last_end + 2 * tl or pos + tl > L - 2 * tl:
-				continue
-			kmer = bytes(b'ACGT'[v] for v in np.random.default_rng(kseed).integers(0, 4, size=k))
-			site = pb + kmer
-			seq[pos:pos + tl] = R.ref_revcomp(site) if rev else site
-			windows.append((pos - 2 * tl, pos + 3 * tl))
-			last_end = pos + tl
-		seq = bytes(seq)
-		exp = set()
-		for a, b in windows:
-			exp.update(R.ref_signature([seq[a:b]], k, pb))
-		exp = sorted(exp)
+		from vlib import longseq
+		seq, exp, windows = longseq.build(np, case)
 		got = _call(lambda: calc_signature(kspec, seq), 'bytes/default', case)
 		_compare(np, got, exp, k, 'long sequence, bytes/default', case)
 		got = _call(lambda: calc_signature(kspec, [R.ref_revcomp(seq)], accumulator=SetAccumulator(k)), 'revcomp/set', case)
